@@ -184,7 +184,7 @@ func runC13(p *Program, r *Report) {
 				for _, in := range blk.Instrs {
 					if u, ok := in.(*ssa.UnOp); ok && u.Op == token.MUL {
 						e := pv.Of(u)
-						if e.Op == "field" && e.Name == "str" && e.Args[0].Op == "param" && e.Args[0].Idx == 0 {
+						if e.Op == "field" && p.isWrappedFieldName(e.Name) && e.Args[0].Op == "param" && e.Args[0].Idx == 0 {
 							env[u] = Term{Param: 0}
 						}
 					}
@@ -242,7 +242,7 @@ func runC13(p *Program, r *Report) {
 			if bo, ok := site.Store.Val.(*ssa.BinOp); ok && bo.Op == token.ADD {
 				l := pv.Of(bo.X)
 				arg, okq := queryEscapeOf(bo.Y)
-				okShape = l.Op == "field" && l.Name == "str" && l.Args[0].Op == "param" && l.Args[0].Idx == 0 && okq && arg == ssa.Value(b.fn.Params[1])
+				okShape = l.Op == "field" && p.isWrappedFieldName(l.Name) && l.Args[0].Op == "param" && l.Args[0].Idx == 0 && okq && arg == ssa.Value(b.fn.Params[1])
 			}
 			r.Check(okShape, "C13.R5", b.cn+"#shape", site.Pos, "result = base + QueryEscapeURL(s)", "result is not base + QueryEscapeURL(s): "+site.Val.String())
 			for _, ret := range Returns(b.fn) {
@@ -437,7 +437,7 @@ func checkWithParams(p *Program, r *Report, pv *Prov) {
 	pos := p.Pos(stores[0].Store.Pos())
 	isBaseStr := func(v ssa.Value) bool {
 		e := pv.Of(v)
-		return e.Op == "field" && e.Name == "str" && e.Args[0].Op == "param" && e.Args[0].Idx == 0
+		return e.Op == "field" && p.isWrappedFieldName(e.Name) && e.Args[0].Op == "param" && e.Args[0].Idx == 0
 	}
 	// result = url' + fragment
 	bo, ok := stores[0].Store.Val.(*ssa.BinOp)
